@@ -139,6 +139,15 @@ theorem fault_is_reported (V : Variant) (hE : V.mExc ≠ []) (jobs : List Job) (
 theorem exc_paths : docker.mExc ≠ [] ∧ awsBatch.mExc ≠ [] ∧ k8s.mExc ≠ [] ∧ gcpBatch.mExc ≠ [] ∧ glue.mExc ≠ [] := by
   decide
 
+/-- **`_submit` tracks the job** (every variant, with or without the reunite path): the step that records a
+job puts it into the pending map (directly, or under the id of the in-flight cloud job it is reunited
+with) or hands it to the queue (arrayer / Glue pending queue) — never neither; together with
+`conservation` it stays in one of the containers until it is reported. -/
+theorem submit_tracks_job (V : Variant) (s s' : State) (hph : s.sph = .ins) (hs : stepS V s = some s') :
+    s.cur ∈ s'.pending ∨ s.cur ∈ s'.queue := by
+  simp only [stepS, hph] at hs
+  (repeat' split at hs) <;> (simp only [Option.some.injEq] at hs; subst hs; simp)
+
 /-- the four executors the partial theorem applies to -/
 theorem wf_variants : WF docker ∧ WF awsBatch ∧ WF k8s ∧ WF gcpBatch :=
   ⟨wf_docker, wf_awsBatch, wf_k8s, wf_gcpBatch⟩
@@ -173,6 +182,11 @@ def schedGlueInHand : List Ev := rep 10 .S ++ rep 6 (.U 0) ++ rep 6 (.M 0) ++ re
 the job is popped and not reported, and the monitor raises the scheduler-level error -/
 example : ∃ s, Reachable docker [0] s ∧ quiescent s = true ∧ s.dropped = [0] ∧ s.reported = [] ∧ s.crashes = 1 :=
   ⟨run docker (init [0]) (rep 7 .S ++ [.F] ++ rep 30 (.M 0)), reachable_run _ _ _ _ Reachable.init, by decide⟩
+
+/-- non-vacuity of the reunite path: the listing names an in-flight cloud job for job 1; job 0 goes to the
+arrayer, job 1 joins the pending map directly -/
+example : ∃ s, Reachable awsBatch [0, 1] s ∧ s.pending = [1] ∧ s.queue = [0] ∧ s.pre = [] :=
+  ⟨run awsBatch (init [0, 1]) ([.L 1] ++ rep 8 .S), reachable_run _ _ _ _ Reachable.init, by decide⟩
 
 theorem refuted_docker :
     ∃ s, Reachable docker [0, 1] s ∧ quiescent s = true ∧ lost s = [1] ∧ s.reported = [0] ∧ s.flag = false :=
